@@ -1,5 +1,5 @@
-\* exhaustive: 3 L1 blocks, 3 events, 2 reorgs, 2 failures, no restart, chunk size in {1,2,10}
-\* measured: 10 827 828 distinct / 40 808 749 generated states (5 min on 8 workers)
+\* exhaustive: 3 L1 blocks, 3 events, 2 reorgs, 2 failures, 1 failed write of the head record (the client then stays stopped), no restart, chunk size in {1,2,10}
+\* measured: 10 854 603 distinct / 41 291 840 generated states, depth 35 (3.5 min on 8 loaded workers)
 CONSTANTS
   MaxBlocks = 3
   MaxEvents = 3
